@@ -56,7 +56,8 @@ class Lab:
                     raise lab.exception_for(v[6:])
                 if v.startswith("return:"):
                     import threading as _threading
-                    return {"None": None, "False": False, "0": 0, "list": [1, 2], "str": "welcome", "lock": _threading.Lock()}[v[7:]]
+                    return {"None": None, "False": False, "0": 0, "list": [1, 2], "str": "welcome", "lock": _threading.Lock(),
+                            "huge": "w" * 200000}[v[7:]]      # (huge: more than the message size limit in force while it is used)
                 return "hello"
 
             def clientDisconnect(self, conn):
